@@ -273,6 +273,9 @@ class Check(Property):
             if canon(x) != canon(y):
                 v.append(f"C13 after the history {[s['f'] for s in c['steps']]} the probe {p} answers {x}, "
                          f"a registry that only saw the state changes answers {y}")
+        if not getattr(self, "_fixed_probes_done", False):
+            self._fixed_probes_done = True
+            v += self.fixed_probes()
         # per-object dimensionality memo after in-place arithmetic
         import numpy as np
         q = u1.Quantity(np.array([1.0, 2.0]), "meter")
@@ -280,4 +283,32 @@ class Check(Property):
         q *= u1.Quantity(2.0, "second")
         if dict(q.dimensionality) != {"[length]": 1, "[time]": 1}:
             v.append(f"C13 q.dimensionality after q *= second is {q.dimensionality} (stale per-object memo)")
+        return v
+
+    def fixed_probes(self):
+        """declarative-state changes whose effect must equal a fresh registry with the same definitions"""
+        import pint
+        v = []
+        logging.disable(logging.CRITICAL)
+        try:
+            u = regs.fresh("float")
+            u.default_system = None
+            u.get_compatible_units("meter")
+            u.define("smoot = 1.7018 * meter")
+            f = pint.UnitRegistry()
+            f.default_system = None
+            names = {str(x) for x in u.get_compatible_units("meter")}
+            if "smoot" not in names:
+                v.append("C13 [known finding F8c] define('smoot = 1.7018 * meter') after the registry was built: smoot is "
+                         "missing from get_compatible_units('meter') although a registry built with that line lists it")
+            u = self.mkreg()
+            with u.context("c13ctx"):
+                u.define("zork = 2 * meter")
+            try:
+                u.Quantity(1, "zork").to("meter")
+            except Exception as exc:  # noqa: BLE001
+                v.append(f"C13 [known finding F8e] define('zork = 2 * meter') inside 'with ureg.context(c)' (c has a "
+                         f"redefinition): after the block zork raises {type(exc).__name__}")
+        finally:
+            logging.disable(logging.NOTSET)
         return v
